@@ -138,4 +138,87 @@ def c07(ctx):
                       'against Offending, result against handler returns.')
 
 
-CHECKS = {'C01': c01, 'C02': c02, 'C07': c07}
+def _sig_framing(r):
+    return hash((tuple(r['in']), r['verify'], r['obs']['kind']))
+
+
+def c04(ctx):
+    from . import drv_framing as d, gpgenv
+    rng = random.Random(ctx.seed)
+    thorough = ctx.tier == 'thorough'
+    # 1. design level: the loader's state machine against the declarative reference, all sequences
+    ctx.mc('Framing', 'MC_Framing_6.cfg' if thorough else 'MC_Framing_5.cfg', timeout=3000)
+    # the model of the historical behaviour must exhibit the accepted-misplaced-armor defect (F15)
+    ctx.mc('Framing', 'MC_Framing_5_F15.cfg', expect_violation='Conforms', coverage=False)
+    # 2. direction 1: every sequence up to the bound, concretised, through the real loader
+    full = 5 if thorough else 4
+    seqs = list(d.all_sequences(full))
+    extra_len = [6, 7] if thorough else [5, 6]
+    nextra = 60000 if thorough else 4000
+    for n in extra_len:
+        for _ in range(nextra):
+            seqs.append([rng.choice(d.CLASSES) for _ in range(n)])
+    # plus biased sequences around the valid shape (random ones are almost never well-formed)
+    for _ in range(nextra):
+        body = [rng.choice(['EV', 'DE', 'BL', 'DB', 'EV', 'DA', 'JK']) for _ in range(rng.randrange(0, 4))]
+        sq = ['BL'] * rng.randrange(0, 2) + ['BS'] + ['HT'] * rng.randrange(0, 3) + ['BL'] + body \
+            + ['BG'] + [rng.choice(['HT', 'BL', 'EV', 'DE', 'JK']) for _ in range(rng.randrange(0, 3))] + ['EN'] \
+            + ['BL'] * rng.randrange(0, 2)
+        if rng.random() < 0.6:
+            k = rng.randrange(len(sq))
+            how = rng.random()
+            if how < 0.4:
+                sq[k] = rng.choice(d.CLASSES)
+            elif how < 0.7:
+                sq.insert(k, rng.choice(d.CLASSES))
+            else:
+                sq.pop(k)
+        seqs.append(sq)
+    chunks = [(seqs[k:k + 2000], ctx.seed * 1000003 + k) for k in range(0, len(seqs), 2000)]
+    out = core.pool_map(d.seq_records, chunks, chunksize=1)
+    recs = [r for o in out for r in o]
+    texts = [{'text': r.pop('text')} for r in recs]
+    for k in range(0, len(recs), 150000):
+        ctx.judge('TraceFraming', 'TraceFraming.cfg', recs[k:k + 150000], texts[k:k + 150000],
+                  {'driver': 'seq_records', 'module': 'TraceFraming'}, sig=_sig_framing)
+    ctx.extra['sequences_exhaustive_up_to_length'] = full
+    ctx.extra['sequences_loaded'] = len(seqs)
+    ctx.sample({'direction': 'spec->code', 'classes': recs[len(recs) // 2]['in'],
+                'text': texts[len(recs) // 2]['text'], 'obs': recs[len(recs) // 2]['obs']})
+    # 3. direction 2: genuinely signed Manifests, mutated; gpg itself is the oracle for the
+    #    authenticated cleartext
+    if gpgenv.have_gpg():
+        home, items = d.make_signed_corpus(ctx.seed, 12, 20000 if thorough else 1200)
+        try:
+            chunks = [(items[k:k + 25], home.path) for k in range(0, len(items), 25)]
+            out = core.pool_map(d.signed_records, chunks, chunksize=1)
+        finally:
+            home.close()
+        recs = [r for o in out for r in o]
+        metas = [{'text': r.pop('text'), 'mutation': r.pop('mut')} for r in recs]
+        ctx.judge('TraceFraming', 'TraceFraming.cfg', recs, metas,
+                  {'driver': 'signed_records', 'module': 'TraceFraming'}, sig=_sig_framing)
+        kinds = {}
+        for r in recs:
+            k = '%s/gpg_good=%s' % (r['obs']['kind'], r['auth']['good'])
+            kinds[k] = kinds.get(k, 0) + 1
+        ctx.extra['gpg_signed_mutations'] = len(recs)
+        ctx.extra['gpg_outcomes'] = kinds
+        acc = [j for j, r in enumerate(recs) if r['obs']['kind'] == 'signed' and metas[j]['mutation'] != 'base']
+        if acc:
+            ctx.sample({'direction': 'code->spec', 'mutation': metas[acc[0]]['mutation'],
+                        'classes': recs[acc[0]]['in'], 'obs': recs[acc[0]]['obs'], 'auth': recs[acc[0]]['auth']})
+    else:
+        ctx.skipped.append('gpg not available: direction 2 (signed mutations) skipped')
+    ctx.assumptions += ['line classification of concrete texts (harness) is the abstraction function',
+                        'gpg 2.2 --decrypt output is the authenticated cleartext',
+                        'END PGP SIGNATURE without final newline is a lenient zone']
+    return ctx.finish(rule='spec->code: ALL line-class sequences up to the stated length (the space Framing.tla '
+                      'explores) plus sampled longer and near-valid ones, each concretised with random variants '
+                      'per class and loaded by the real ManifestFile.load with and without verification '
+                      '(one parser object reused); code->spec: Manifests clear-signed by real gpg and mutated '
+                      'textually, loaded through SystemGPGEnvironment, compared with gpg --decrypt. '
+                      'distinct = distinct (class sequence, mode, outcome).')
+
+
+CHECKS = {'C01': c01, 'C02': c02, 'C04': c04, 'C07': c07}
